@@ -91,6 +91,8 @@ def check_case(case):
         for k in range(case["cycles"]):
             p = tmp.fresh("screen.h5")
             paths.append(p)
+            if k == 0 and case["superset"]:
+                own.save_h5(p)  # the path already holds another screen (same rows, its own smaller mappings): saving replaces it
             cur.save_h5(p)
             nxt = Screen.load_h5(p)
             compare_screens(s0, nxt, "roundtrip%d" % (k + 1))
